@@ -135,7 +135,7 @@ def hValue (k : Int) (args : List Val) : Int :=
 
 def rangeVals (k : Int) (n : Nat) : List Int := (List.range n).map fun (i : Nat) => k * 10 + (i : Int)
 
-def unmodelled : Val := exc "Unmodelled"
+def unmodelled : Val := fatal "unmodelled"
 
 def call (f : Val) (args : List Val) (w : World) : Res Val × World :=
   match f, args with
